@@ -143,6 +143,11 @@ def use_before_binding(repo, fn, cfg):
     if a.kwarg:
         params.add(a.kwarg.arg)
     locs = set(_locals_of(fn)) - params
+    for x in ast.walk(fn):      # comprehension targets live in the comprehension's own scope
+        if isinstance(x, ast.comprehension):
+            for t in ast.walk(x.target):
+                if isinstance(t, ast.Name):
+                    locs.discard(t.id)
     binders = {}
     for n in cfg.nodes:
         for x in cfg.walk_node(n):
@@ -439,11 +444,65 @@ def errno_misclassification(repo, fn):
     return out
 
 
+def runtime_format_templates(repo, fn):
+    """D5b: str.format applied to a template that is not a literal: `(a + b).format(..)` / `t.format(..)` with t built by
+    concatenating or interpolating run-time text.  Any `{` or `}` in that text is then parsed as a replacement field and
+    raises KeyError / IndexError / ValueError instead of producing the message."""
+    out = []
+    assigns = {}
+    for x in walk_no_nested(fn):
+        if isinstance(x, ast.Assign) and len(x.targets) == 1 and isinstance(x.targets[0], ast.Name):
+            assigns.setdefault(x.targets[0].id, []).append(x.value)
+        elif isinstance(x, ast.AugAssign) and isinstance(x.target, ast.Name):
+            assigns.setdefault(x.target.id, []).append(x)
+
+    def runtime_text(e, depth=0):
+        """does expression e (a template) contain text that is not a literal of this function?"""
+        if const_str(e) is not None:
+            return False
+        if isinstance(e, ast.BinOp) and isinstance(e.op, ast.Add):
+            return runtime_text(e.left, depth) or runtime_text(e.right, depth)
+        if isinstance(e, ast.BinOp) and isinstance(e.op, ast.Mod):
+            return True
+        if isinstance(e, ast.JoinedStr):
+            return any(isinstance(v, ast.FormattedValue) for v in e.values)
+        if isinstance(e, ast.AugAssign):
+            return runtime_text(e.value, depth)
+        if isinstance(e, ast.Name) and depth < 3:
+            vs = assigns.get(e.id)
+            if vs:
+                return any(runtime_text(v, depth + 1) for v in vs)
+            return False      # parameter / global: unknown, not reported
+        if isinstance(e, ast.Call) and isinstance(e.func, ast.Attribute) and e.func.attr in ("join", "format") and depth < 3:
+            return isinstance(e.func.value, ast.Constant) is False or e.func.attr == "format"
+        return isinstance(e, (ast.Attribute, ast.Subscript))
+    for x in walk_no_nested(fn):
+        if isinstance(x, ast.Call) and isinstance(x.func, ast.Attribute) and x.func.attr == "format":
+            recv = x.func.value
+            if isinstance(recv, ast.BinOp) or (isinstance(recv, ast.Name) and recv.id in assigns):
+                if runtime_text(recv):
+                    out.append(Finding("D5b", x, src(recv)[:80] + ".format(...)",
+                                       "the format template contains run-time text (not a literal): a brace in that text is "
+                                       "read as a replacement field and raises KeyError/IndexError/ValueError"))
+    return out
+
+
+def _use_before_binding(repo, fn):
+    from .cfg import CFG
+    try:
+        cfg = CFG(fn)
+    except Exception:
+        return []
+    return use_before_binding(repo, fn, cfg)
+
+
 ALL = {
     "D1": undefined_names,
+    "D1b": _use_before_binding,
     "D3": unknown_self_attrs,
     "D4": signature_mismatches,
     "D5": bad_formats,
+    "D5b": runtime_format_templates,
     "D6": subscripted_callables,
     "D8": errno_misclassification,
 }
